@@ -48,7 +48,12 @@ def ev(fx, rep, rule, key, path, opaque=None, through_mut=False):
     rep.fn(path)
     sy = S.Sym(fx, opaque=opaque, inline_mut=through_mut, thread_places=through_mut)
     try:
-        return sy, sy.eval_body(fx.bodies[path])
+        res = sy.eval_body(fx.bodies[path])
+        if not through_mut and any(e_[0] == "call" and e_[1].startswith("proguard::") for st_, o_ in res for e_ in st_.effects):
+            # the cursor is an object with `&mut self` steps (`line.expect(b":")?`): evaluated through, with the cursor's value threaded
+            sy = S.Sym(fx, opaque=opaque, inline_mut=True, thread_places=True)
+            res = sy.eval_body(fx.bodies[path])
+        return sy, res
     except S.Undecidable as e:
         rep.undecidable(rule, key + "/shape", loc=F.loc(e.node) if isinstance(e.node, dict) else "", construct=e.msg)
         return None, None
